@@ -160,8 +160,14 @@ pub fn prepare(history: &History, layouts: &[Layout]) -> Result<Prepared, (usize
     let mut emitted = vec![];
     let mut programs = vec![];
     for (i, sc) in history.programs.iter().enumerate() {
-        let em = emit(sc, &layouts[i.min(layouts.len() - 1)]);
-        match parse(&em.text) {
+        let layout = &layouts[i.min(layouts.len() - 1)];
+        let em = emit(sc, layout);
+        let parsed = if layout.via_file {
+            crate::runner::parse_via_file(&em.text)
+        } else {
+            parse(&em.text)
+        };
+        match parsed {
             Ok(p) => programs.push(p),
             Err(o) => return Err((i, o, em.text)),
         }
